@@ -142,6 +142,20 @@ def gen_program(rng, dim, opts=None):
     if o.get('unit'):
         T = 1
     shape = (C0, T) if dim == 1 else (C0, T, T)
+    if o.get('mlp_res'):
+        # residual MLP on the flattened network input: relu(fc(f)) + f, f = flatten(x); everything tied to the
+        # input stays unpruned, and the masker of fc has fc's width (not the input's)
+        x0 = b.add(('input', 0), C0, T)
+        feat = C0 * (T if dim == 1 else T * T)
+        f = b.add(('flatf', x0, (1,)), feat, 1)
+        l1 = b.add(('lin', f, nn.Linear(feat, feat, bias=rng.random() < .8)), feat, 1)
+        r1 = b.add(('relu', l1), feat, 1)
+        cur = b.add(('add', r1, f) if rng.random() < .5 else ('add', f, r1), feat, 1)
+        h = rng.choice([3, 4, 5])
+        l2 = b.add(('lin', cur, nn.Linear(feat, h)), h, 1)
+        r2 = b.add(('relu', l2), h, 1)
+        b.add(('lin', r2, nn.Linear(h, rng.choice([2, 3]))), 0, 1)
+        return b.prog, [shape]
     two = bool(o.get('two_inputs'))
     x0 = b.add(('input', 0), C0, T)
     C1 = rng.choice([2, 3, 4])          # the second input has its own width
@@ -157,7 +171,7 @@ def gen_program(rng, dim, opts=None):
             cur = b.conv(cur)
     else:
         cur = b.conv(x0)
-    for _ in range(rng.randint(1, 4)):
+    for _ in range(rng.randint(1, 4) if o.get('reuse') != 'pool' else rng.randint(0, 1)):
         r = rng.random()
         if r < .30:
             cur = b.conv(cur)
@@ -189,11 +203,17 @@ def gen_program(rng, dim, opts=None):
             # time-axis concat of two branches sharing one masker
             br = b.conv(cur, cout=b.ch[cur], keep_size=True, k_choices=[1, 3])
             cur = b.add(('tcat', [cur, br]) if rng.random() < .5 else ('tcat', [cur, br], -1), b.ch[cur], 2 * b.sp[cur])
+        elif r < .92 and o.get('tcat', True) and dim == 2 and not b.taint[cur]:
+            # 2-D: concat of two branches along the height or the width (named from either end), then back to a
+            # square map by adaptive average pooling
+            br = b.conv(cur, cout=b.ch[cur], keep_size=True)
+            t = b.add(('tcat', [cur, br], rng.choice([2, -2, 3, -1])), b.ch[cur], b.sp[cur])
+            cur = b.add(('pool', t, nn.AdaptiveAvgPool2d(b.sp[cur])), b.ch[cur], b.sp[cur])
         else:
             if b.sp[cur] >= 4:
                 m = nn.AvgPool1d(2) if dim == 1 else (nn.MaxPool2d(2) if rng.random() < .5 else nn.AvgPool2d(2))
                 cur = b.add(('pool', cur, m), b.ch[cur], b.sp[cur] // 2)
-    if o.get('reuse') and not b.taint[cur] and (b.sp[cur] < 4 or rng.random() < .6):
+    if o.get('reuse') and not b.taint[cur] and (b.sp[cur] < 4 or (o.get('reuse') != 'pool' and rng.random() < .6)):
         # one layer invoked twice on two *different* tensors u, v (their features must be tied: the layer
         # slices its weights by one input mask), its two outputs joining two residual sums or a concat
         C = b.ch[cur]
@@ -205,9 +225,12 @@ def gen_program(rng, dim, opts=None):
         while b.prog[gnode][0] != 'conv':
             gnode -= 1
         src2 = v
-        if dim == 1:        # the block is pad + conv (+ BatchNorm): the padding module is applied again too
+        if dim == 1 and rng.random() < .5:   # the block is pad + conv (+ BatchNorm): the padding module is applied again too
             src2 = b.add(('reuse', v, gnode - 1), C, b.sp[v])
             b.taint[-1] = b.taint[v]
+        elif dim == 1:                       # ... or the second call site has a padding module of its own
+            m = b.prog[gnode][-1]
+            src2 = b.add(('pad', v, nn.ConstantPad1d(((m.kernel_size[0] - 1) * m.dilation[0], 0), 0.)), C, b.sp[v])
         g2 = b.add(('reuse', src2, gnode), b.ch[g], b.sp[g])
         if b.prog[gnode + 1][0] == 'bn':       # the block is conv + BatchNorm: both are applied again
             g2 = b.add(('reuse', g2, gnode + 1), b.ch[g], b.sp[g])
@@ -254,6 +277,45 @@ def gen_program(rng, dim, opts=None):
         cur = b.add(('cat', lst), sum(b.ch[j] for j in lst), b.sp[cur])
         if rng.random() < .6:
             cur = b.add(('relu', cur), b.ch[cur], b.sp[cur])
+    if o.get('shared_pad') and dim == 1:
+        # one causally padded tensor (or one padding module) feeding two convolutions with the same kernel
+        # extent: each needs its own amount of padding once its receptive field is pruned
+        K = rng.choice([2, 3, 5])
+        d = rng.choice([1, 2])
+        cin = b.ch[cur]
+        padm = nn.ConstantPad1d(((K - 1) * d, 0), 0.)
+        p1 = b.add(('pad', cur, padm), cin, b.sp[cur])
+        ca, cb = rng.choice([2, 3, 4]), rng.choice([2, 3, 4])
+        na = b.add(('conv', p1, nn.Conv1d(cin, ca, K, dilation=d, bias=rng.random() < .7)), ca, b.sp[cur])
+        na = b.add(('relu', na), ca, b.sp[cur])
+        if rng.random() < .5:
+            p2 = p1                                      # the same padded tensor
+        else:
+            p2 = b.add(('reuse', cur, p1), cin, b.sp[cur])   # the same padding module, applied again
+            b.taint[-1] = b.taint[cur]
+        nb = b.add(('conv', p2, nn.Conv1d(cin, cb, K, dilation=d, bias=rng.random() < .7)), cb, b.sp[cur])
+        nb = b.add(('relu', nb), cb, b.sp[cur])
+        cur = b.add(('cat', [na, nb]), ca + cb, b.sp[cur])
+        cur = b.conv(cur)
+    if o.get('reuse_dw') and not b.taint[cur]:
+        # a depthwise convolution (per-feature weights, no features of its own) invoked on two tensors produced by
+        # two different searchable layers: they must carry the same alive features
+        C = b.ch[cur]
+        u = b.conv(cur, cout=C, keep_size=True)
+        v = b.conv(cur, cout=C, keep_size=True)
+        g = b.conv(u, dw=True, keep_size=True, k_choices=[1, 3], p_bn=0)
+        gnode = g
+        while b.prog[gnode][0] != 'dw':
+            gnode -= 1
+        src2 = v
+        if dim == 1:
+            src2 = b.add(('reuse', v, gnode - 1), C, b.sp[v])
+            b.taint[-1] = b.taint[v]
+        g2 = b.add(('reuse', src2, gnode), C, b.sp[g])
+        b.taint[-1] = False
+        g2 = b.add(('relu', g2), C, b.sp[g])
+        cur = b.add(('cat', [g, g2]), 2 * C, b.sp[g])
+        cur = b.conv(cur)
     if o.get('fixed_cat') and not o.get('unsupported'):
         # channel concat of two tensors of fixed origin and different widths (layers excluded from
         # the search by name, or a network input), feeding a searchable layer
